@@ -67,7 +67,8 @@ Example c05_guard_example :
   let s := mkSch (mkSchema [mkType "t" [("a", mkAttr "a" 1 false); ("n", mkAttr "n" 3 true)] []]) [] in
   all_soft s /\ no_bytes_schema s.
 Proof.
-  cbn zeta. split; [reflexivity|]. intros n. unfold get_type. cbn.
-  destruct (String.eqb "t" n); intros k a; cbn; [|tauto].
-  intros [H|[H|[]]]; inversion H; subst; cbn; discriminate.
+  cbn zeta. split; [reflexivity|]. intros n k a. unfold get_type. cbn.
+  destruct (String.eqb "t" n); cbn.
+  - intros [H|[H|[]]]; inversion H; subst; cbn; discriminate.
+  - intros [].
 Qed.
